@@ -11,7 +11,7 @@ RULE = ("complete enumeration: 15 keys x every interval in [-300,300] and 48 far
         "bars with keys, tokeniser annotations, repeated transposition chains; distinct = distinct (prelude, argument "
         "tuple); non-trivial = all but interval 0 / a == b")
 ASSUMPTIONS = ["tonic table and major-scale pattern of the oracle are written independently in this file"]
-REQUIRED_FLAGS = ["transpose_multiple_of_12", "transpose_negative", "enharmonic_key_transposed", "cof_tritone", "transpose_beyond_pitch_range"] + \
+REQUIRED_FLAGS = ["transpose_multiple_of_12", "transpose_negative", "enharmonic_key_transposed", "cof_tritone", "transpose_beyond_pitch_range", "numpy_integer_arguments"] + \
                  ["prelude:" + x for x in ("none", "key_guess", "from_distance_first", "tokeniser_info")]
 
 TONIC = {"C": 0, "G": 7, "D": 2, "A": 9, "E": 4, "B": 11, "F#": 6, "C#": 1, "F": 5, "Bb": 10, "Eb": 3, "Ab": 8,
@@ -77,6 +77,8 @@ def units(ctx):
         yield ("additive", pr)
         for a in range(0, 128, 32):
             yield ("cof", pr, a)
+    for typ in ("int64", "int32", "int16", "uint8", "int8"):
+        yield ("typed", "none", typ)
 
 
 def fold(x):
@@ -93,6 +95,31 @@ def tonic_of(key):
 def check_case(case, ctx):
     out = []
     kind = case[0]
+    if kind in ("cof_t", "transpose_t"):
+        import numpy as np
+        T = getattr(np, case[1])
+        if kind == "cof_t":
+            a, b = case[2], case[3]
+            try:
+                d = CircleOfFifths.get_distance(T(a), T(b))
+                pa, pb = CircleOfFifths.get_position(T(a)), CircleOfFifths.get_position(T(b))
+                back = CircleOfFifths.from_distance(T(a), d)
+            except Exception as e:  # noqa: BLE001
+                return [("cof_typed_pitch_raises", f"{case[1]}: {a}->{b}: {type(e).__name__}: {e}")]
+            if int(pa) != fold(7 * a) or int(pb) != fold(7 * b):
+                out.append(("cof_position", f"{case[1]}: position({a})={pa}, position({b})={pb}"))
+            if not (-5 <= int(d) <= 6) or (int(d) - (fold(7 * b) - fold(7 * a))) % 12 != 0:
+                out.append(("cof_distance_not_position_difference", f"{case[1]}: {a}->{b}: {d}"))
+            if int(back) % 12 != b % 12:
+                out.append(("cof_from_distance_misses_target", f"{case[1]}: from_distance({a},{d})={back} != {b % 12}"))
+        else:
+            k, i = case[2], case[3]
+            if not (np.iinfo(T).min <= i <= np.iinfo(T).max):
+                return out
+            r = Key.transpose_key(Key(k), T(i))
+            if not isinstance(r, Key) or tonic_of(r) != (TONIC[k] + i) % 12:
+                out.append(("transpose_wrong_tonic", f"transpose_key({k}, {case[1]}({i})) = {r!r}"))
+        return out
     if kind == "transpose":
         _, k, i = case
         r = Key.transpose_key(Key(k), i)
@@ -157,6 +184,11 @@ def cases_of(unit):
     if kind == "additive":
         return [("additive", k, i, j) for k in KEYS for i in range(-13, 14) for j in range(-13, 14)] + \
                [("additive", k, i, j) for k in KEYS for i in BIG for j in list(range(-13, 14)) + BIG]
+    if kind == "typed":
+        # the same pitches / intervals handed over as numpy integers (as they come out of note arrays / np.arange)
+        typ = unit[2]
+        return [("cof_t", typ, a, b) for a in range(128) for b in range(128)] + \
+               [("transpose_t", typ, k, i) for k in KEYS for i in range(-36, 37)]
     a0 = unit[2]
     return [("cof", a, b) for a in range(a0, a0 + 32) for b in range(128)] + \
            [("from", a, d) for a in range(a0, a0 + 32) for d in range(-12, 13)]
@@ -180,6 +212,8 @@ def run_unit(unit, acc, ctx):
                 acc.flag("transpose_beyond_pitch_range")
             if c[1] in ("Db", "Gb", "Cb"):
                 acc.flag("enharmonic_key_transposed")
+        if c[0] in ("cof_t", "transpose_t"):
+            acc.flag("numpy_integer_arguments")
         if c[0] == "cof" and (c[2] - c[1]) % 12 == 6:
             acc.flag("cof_tritone")
         res = check_case(c, ctx)
